@@ -7,6 +7,7 @@ Oracle, real code only: M = L R, R = L^H, L = (Jac T)^H (exact transformations) 
 (transformations documented as local approximations), M = Fisher information of the documented distribution
 (closed forms written independently in _c12_fisher.py, themselves self-tested against expected Hessians).
 """
+import contextlib
 import copy
 import struct
 
@@ -21,7 +22,8 @@ LEAN_MODULES = ["NiftyVerif.Core.Proto", "NiftyVerif.Model.LikelihoodRe", "Nifty
 DRIVER = "Driver/C12.lean"
 OBLIGATIONS = ["NiftyVerif.C12." + t for t in (
     "factor_iff_matrix", "R_eq_Lh", "default_metric_eq_L_R", "ofML_factor", "L_Lh_eq_M_ndvc",
-    "expected_pullback_vcgauss_complex_witness", "with_model_factor_star",
+    "expected_pullback_vcgauss_complex_witness", "expected_pullback_vcgauss_complex_factor",
+    "studentt_dense_noise_witness", "with_model_factor_star",
     "L_Lh_eq_M_gaussian", "L_Lh_eq_M_studentt", "L_Lh_eq_M_poisson", "L_Lh_eq_M_vcgauss", "L_Lh_eq_M_vcstudt",
     "categorical_factor", "softmax_group_sum", "L_Lh_eq_M_categorical", "categorical_global_sum_defect",
     "L_is_pullback_gaussian", "L_is_pullback_studentt", "L_is_pullback_poisson",
@@ -30,7 +32,9 @@ OBLIGATIONS = ["NiftyVerif.C12." + t for t in (
     "with_model_factor", "sum_factor", "partial_factor", "with_model_fisher", "sum_fisher", "partial_fisher",
 )]
 RULE = ("cases = real likelihood objects built from generated JSON: 7 implementations x (scalar | batched | Vector-pytree "
-        "data, real | complex) x (plain | amended with linear/non-linear forward model | sum of 2-3 | partially frozen); "
+        "data, real | complex) x (plain | amended with linear/non-linear forward model | sum of 2-3 | partially frozen) "
+        "x (real latent | latent tree with complex leaves and complex forward models: imaginary/complex scalar, complex "
+        "diagonal, jnp.fft, complex dense, holomorphic / anti-holomorphic / real-valued activations) x (float64 | float32); "
         "non-trivial = parameter dimension >= 2 or a composition; distinct by canonical JSON of the case")
 TRUSTED_BASE = [
     "Lean 4.33 kernel; axioms propext/Classical.choice/Quot.sound only (audited every run)",
@@ -46,11 +50,15 @@ TRUSTED_BASE = [
 ASSUMPTIONS = [
     "noise_cov_inv / noise_std_inv generated diagonal and mutually consistent (the constructor does not check this)",
     "Categorical probed on the logits shape (its declared lsm_tangents_shape is the data shape)",
-    "NDVariableCovarianceGaussian: model driver supports d <= 2 (closed-form 2x2 sqrt/inverse); d = 3 oracle only; "
-    "Fisher compared on symmetric matrix directions",
+    "NDVariableCovarianceGaussian: model driver d <= 2 closed forms, d = 3, 4 Gauss-Jordan + Denman-Beavers iteration "
+    "(generated: d <= 3); Fisher compared on symmetric matrix directions",
+    "dense (non-diagonal) Hermitian noise operators: oracle only; generated mutually consistent (cov_inv = std_inv^2), "
+    "Student-t with them and a scalar dof (per-element dof: known finding C12-studentt-dense-noise-dof)",
+    "float32 cases run under jax.enable_x64(False) in the same workers, tolerance 2e-4 (observed noise <= 1e-6)",
 ]
 
 TOL = 1e-9
+TOL32 = 2e-4     # float32 worker (jax default configuration): eps = 6e-8, observed noise <= 2e-6 (see design.d/C12.md)
 
 
 # ---------------------------------------------------------------------------------------------------
@@ -79,7 +87,7 @@ def dec(a):
     return np.array([b2f(x) for x in a], dtype=float)
 
 
-def close(a, b, scale=1.0):
+def close(a, b, scale=1.0, tol=None):
     a, b = np.asarray(a, dtype=float), np.asarray(b, dtype=float)
     if a.shape != b.shape:
         return False
@@ -88,7 +96,14 @@ def close(a, b, scale=1.0):
     if not (np.all(np.isfinite(a)) and np.all(np.isfinite(b))):
         return False
     ref = max(np.abs(b).max(), np.abs(a).max(), scale)
-    return bool(np.abs(a - b).max() <= TOL * ref)
+    r = float(np.abs(a - b).max() / ref)
+    ok = r <= (TOL if tol is None else tol)
+    if ok:
+        NOISE[0] = max(NOISE[0], r)
+    return bool(ok)
+
+
+NOISE = [0.0]    # largest relative deviation seen by `close` since the last reset (noise measurement, per worker case)
 
 
 def dev(a, b):
@@ -128,6 +143,94 @@ def _act_np(name, z, shape):
     raise ValueError(name)
 
 
+def _dft(n, inverse, norm):
+    """explicit DFT matrix (numpy twin of jnp.fft.fft / ifft with the given `norm`)"""
+    k = np.outer(np.arange(n), np.arange(n))
+    F = np.exp((2j if inverse else -2j) * np.pi * k / n)
+    norm = norm or "backward"
+    if norm == "ortho":
+        return F / np.sqrt(n)
+    if (norm == "backward") == bool(inverse):
+        return F / n
+    return F
+
+
+def _cmodel_y_and_J(t, lat, x):
+    """numpy twin of _c12_impl.cforward_tree_fn: value (real coordinates) and REAL Jacobian w.r.t. the real
+    coordinates of the latent tree (complex leaf = [re, im])"""
+    m = t["model"]
+    cp = lat.get("cplx") or [False] * len(lat["sizes"])
+    nl, nr = sum(lat["sizes"]), len(x)
+    u = np.zeros(nl, dtype=complex)
+    D = np.zeros((nl, nr), dtype=complex)
+    ou = ox = 0
+    for n, c in zip(lat["sizes"], cp):
+        for i in range(n):
+            if c:
+                u[ou + i] = x[ox + i] + 1j * x[ox + n + i]
+                D[ou + i, ox + i] = 1.0
+                D[ou + i, ox + n + i] = 1j
+            else:
+                u[ou + i] = x[ox + i]
+                D[ou + i, ox + i] = 1.0
+        ou += n
+        ox += 2 * n if c else n
+    ct = m["ctype"]
+    if ct in ("iscal", "cscal"):
+        C = complex(*m["g"]) * np.eye(nl)
+    elif ct == "cdiag":
+        C = np.diag([complex(*v) for v in m["c"]])
+    elif ct == "fft":
+        C = _dft(nl, m.get("inverse"), m.get("norm"))
+    elif ct == "cdense":
+        C = np.array([[complex(*v) for v in r] for r in m["C"]]).reshape(len(m["C"]), nl)
+    else:
+        raise ValueError(ct)
+    if ct != "cdense":
+        C = C[np.asarray(m["sel"], dtype=int)]
+    w = C @ u + np.array([complex(*v) for v in m["b"]])
+    Dw = C @ D
+    ys, Js, off = [], [], 0
+    for l, a in zip(I.spec_leaves(I.primal_spec(t)), m["acts"]):
+        n = int(np.prod(l["shape"], dtype=int))
+        ww, dd = w[off:off + n], Dw[off:off + n]
+        off += n
+        if a in ("id", "cexp", "csq", "csin", "conj"):
+            if a == "id":
+                v, dv = ww, dd
+            elif a == "cexp":
+                v = np.exp(ww / 2)
+                dv = (v / 2)[:, None] * dd
+            elif a == "csq":
+                v, dv = ww + ww * ww / 4, (1 + ww / 2)[:, None] * dd
+            elif a == "csin":
+                v, dv = np.sin(ww), np.cos(ww)[:, None] * dd
+            else:
+                v, dv = np.conj(ww), np.conj(dd)
+            assert l.get("cplx")
+            ys += [v.real, v.imag]
+            Js += [dv.real, dv.imag]
+        else:
+            assert not l.get("cplx")
+            if a == "re":
+                v, dv = ww.real, dd.real
+            elif a == "im":
+                v, dv = ww.imag, dd.imag
+            elif a == "abs2p1":
+                v, dv = 1.0 + np.abs(ww) ** 2, 2.0 * (np.conj(ww)[:, None] * dd).real
+            elif a == "expre":
+                v = np.exp(ww.real / 2)
+                dv = (v / 2)[:, None] * dd.real
+            elif a == "spd":
+                v, Ja = _act_np("spd", ww.real, l["shape"])
+                dv = Ja @ dd.real
+            else:
+                raise ValueError(a)
+            ys.append(v)
+            Js.append(dv)
+    return np.concatenate(ys), np.vstack(Js)
+
+
 def term_y_and_J(case):
     """per term: forward value y_k (real coordinates) and dense Jacobian J_k of the HARNESS forward model
     (numpy, written independently of the jax closure that is handed to the library)"""
@@ -137,6 +240,9 @@ def term_y_and_J(case):
     out = []
     for t in case["terms"]:
         m = t["model"]
+        if m.get("ctype") is not None:
+            out.append(_cmodel_y_and_J(t, case["latent"], x))
+            continue
         A = np.asarray(m["A"], dtype=float).reshape(len(m["b"]), -1)
         if m.get("pre") is not None:
             A = A @ np.asarray(m["pre"], dtype=float)
@@ -163,8 +269,9 @@ def liquid_of(case):
     if lat is None:
         return list(range(I.spec_size(I.primal_spec(case["terms"][0]))))
     frozen = case.get("freeze") or []
-    offs = np.cumsum([0] + lat["sizes"])
-    return [int(i) for k, n in enumerate(lat["sizes"]) if k not in frozen for i in range(offs[k], offs[k] + n)]
+    rs = G.lat_real_sizes(lat)
+    offs = np.cumsum([0] + rs)
+    return [int(i) for k, n in enumerate(rs) if k not in frozen for i in range(offs[k], offs[k] + n)]
 
 
 def _expand(term, vals):
@@ -226,7 +333,11 @@ def cat_groups(t):
 
 
 def model_supported(case):
-    return all(not (t["kind"] == "ndvc" and t["d"] > 2) for t in case["terms"])
+    # dense Hermitian noise operators: oracle only (the model transcribes the diagonal branches of the constructor)
+    return all(not t.get("par", {}).get("herm") and not (t["kind"] == "ndvc" and t["d"] > ND_MAX) for t in case["terms"])
+
+
+ND_MAX = 4
 
 
 # ---------------------------------------------------------------------------------------------------
@@ -246,6 +357,10 @@ def impl(case, want=None):
         bases = I.build_bases(case)
         b = I.assemble(case, bases)
         want = want or (("M", "L", "R", "T") if has_T(case) else ("M", "L", "R"))
+        if case.get("latent") is not None:
+            want = want + ("C",)       # composition cross-check: jacfwd/jacrev of the forward models, M_k, L_k
+        elif case["terms"][0]["kind"] == "gaussian" and not case["terms"][0].get("defaults"):
+            want = want + ("H",)       # Hessian of the energy (independent of the data for a Gaussian)
         out = I.probe(b, want)
         out["_bases"] = bases
         return out
@@ -337,7 +452,32 @@ def term_tag(t):
         return "ndvc[d>=2]" if t["d"] >= 2 else "ndvc[d=1]"
     if k == "categorical":
         return "categorical[batched]" if sum(FI._leaf_elems(t)) > 1 else "categorical[single]"
+    if k == "studentt" and t["par"].get("herm") is not None and len(t["par"]["dof"]) > 1:
+        return "studentt[dense-noise,dof-per-element]"
     return k
+
+
+def _tol():
+    return TOL
+
+
+@contextlib.contextmanager
+def precision(case):
+    """cases flagged "f32" run with jax's DEFAULT configuration (x64 off: float32 / complex64 / int32) -- the precision
+    the library runs in unless the user switches x64 on; tolerance from the float32 unit round-off"""
+    global TOL
+    f32 = bool(case.get("f32"))
+    if f32 != bool(I.X64):          # already in the right configuration
+        yield
+        return
+    jax = I.jx()
+    old = (TOL, I.X64)
+    TOL, I.X64 = (TOL32, False) if f32 else (1e-9, True)
+    try:
+        with jax.enable_x64(not f32):
+            yield
+    finally:
+        TOL, I.X64 = old
 
 
 def _sig(case, check, **kw):
@@ -354,6 +494,14 @@ def _checks(case, o):
         return [(f"real code raised {o['error']}: {o.get('msg', '')}", _sig(case, "raises", error=o["error"]))]
     M, L, R = o["M"], o["L"], o["R"]
     kinds = {t["kind"] for t in case["terms"]}
+    # 0. every metric is Hermitian and positive semi-definite (real coordinates: a complex direction is probed with
+    #    e_j and i e_j separately, the real symmetric matrix IS the Hermitian form Re<a, M b>)
+    if not close(M, M.T):
+        fails.append((f"metric is not Hermitian ({dev(M, M.T)})", _sig(case, "M=Mh")))
+    elif M.size and np.all(np.isfinite(M)):
+        ev = np.linalg.eigvalsh(0.5 * (M + M.T))
+        if ev.min() < -_tol() * max(np.abs(M).max(), 1.0):
+            fails.append((f"metric is not positive semi-definite (smallest eigenvalue {ev.min():.3e})", _sig(case, "M>=0")))
     # 1. M = L R
     if L.shape[1] != R.shape[0] or not close(M, L @ R):
         fails.append(("metric != left_sqrt_metric o right_sqrt_metric (max dev "
@@ -367,6 +515,30 @@ def _checks(case, o):
                       _sig(case, "R=Lh")))
     yj = term_y_and_J(case)
     liquid = liquid_of(case)
+    # 2b. composition, mechanism against mechanism: M = sum_k J_k^H M_k(y_k) J_k and L = [J_k^H L_k(y_k)]_k with J_k from
+    #     jax.jacfwd AND jax.jacrev of the forward model, M_k / L_k the base likelihood's own dense operators
+    if "Jf0" in o:
+        Mp, Lp, okj = 0.0, [], True
+        for k, (_, Jn) in enumerate(yj):
+            Jf, Jr = o[f"Jf{k}"], o[f"Jr{k}"]
+            if not (close(Jf, Jn) and close(Jr, Jn)):
+                okj = False
+                fails.append((f"Jacobian of forward model {k}: jacfwd / jacrev / numpy twin differ "
+                              f"({dev(Jf, Jn)}, {dev(Jr, Jn)})", _sig(case, "forward_jacobian")))
+            Mp = Mp + Jr.T @ o[f"Mk{k}"] @ Jf
+            Lp.append(Jf.T @ o[f"Lk{k}"])
+        if okj:
+            Mp = Mp[np.ix_(liquid, liquid)]
+            if not close(M, Mp):
+                fails.append((f"metric of the composition != sum_k J_k^H M_k J_k (jacfwd/jacrev) ({dev(M, Mp)})",
+                              _sig(case, "amend_metric")))
+            Lp = np.hstack(Lp)[liquid, :]
+            if Lp.shape == L.shape and not close(L, Lp):
+                fails.append((f"left_sqrt_metric of the composition != [J_k^H L_k]_k ({dev(L, Lp)})",
+                              _sig(case, "amend_left")))
+    if "H" in o and not close(o["H"], M):
+        fails.append((f"metric != Hessian of the energy (Gaussian: independent of the data) ({dev(o['H'], M)})",
+                      _sig(case, "fisher_energy")))
     # 3. pull-back
     if has_T(case):
         T = o["T"]
@@ -423,6 +595,11 @@ def oracle_all(case, o=None):
     """list of (case', what, signature): every failing part of the property; failures of a composed case are
     localised — each term is re-examined on its own (no forward model, at the forward value) and, when it fails the
     same check there, the small self-contained case is reported instead of the composition"""
+    with precision(case):
+        return _oracle_all(case, o)
+
+
+def _oracle_all(case, o=None):
     o = impl(case) if o is None else o
     fails = _checks(case, o)
     if not fails or case.get("latent") is None:
@@ -430,9 +607,10 @@ def oracle_all(case, o=None):
     out, explained, grams = [], set(), []
     for i in range(len(case["terms"])):
         try:
-            pc = plainify(case, i)
-            po = impl(pc)
-            sub = _checks(pc, po)
+            pc = plainify(case, i)       # (always float64: a listed finding must be recognised at full precision)
+            with precision(pc):
+                po = impl(pc)
+                sub = _checks(pc, po)
             grams.append(po.get("_gram"))
         except Exception:
             grams.append(None)
@@ -479,6 +657,8 @@ def plainify(case, i):
     yj = term_y_and_J(case)
     t = copy.deepcopy(case["terms"][i])
     t.pop("model", None)
+    if t.get("defaults") == "outer":
+        t.pop("defaults")
     t["y"] = [float(v) for v in yj[i][0]]
     return dict(op="lh", terms=[t])
 
@@ -515,6 +695,8 @@ def gen_composed(rng, kinds=None, nterms=None, freeze=None):
         n_first = len(ps["first"]["leaves"]) if ps["wrap"] == "pair" else len(leaves)
         t["model"] = G.gen_model(rng, t, nlat, leaves, n_first)
         _maybe_defaults(rng, t)
+        if t["kind"] in EXACT_T and not t.get("defaults") and rng.random() < 0.2:
+            t["defaults"] = "outer"     # defaults of `Likelihood` on the whole amended object
         if rng.random() < 0.2 and (nterms == 1 or lat["wrap"] != "arr"):
             # chain of two forward models (`amend` of an amended likelihood): a linear re-parametrisation first
             t["model"]["pre"] = [[(rng.randint(-4, 4) / 4.0 if (rng.random() < 0.5 or i == j_) else 0.0)
@@ -529,6 +711,66 @@ def gen_composed(rng, kinds=None, nterms=None, freeze=None):
     if freeze:
         k = rng.randrange(len(lat["sizes"]))
         case["freeze"] = [k]
+    if nterms > 1 and rng.random() < 0.3:
+        case["sumctor"] = True
+    return case
+
+
+def gen_herm_term(rng, kind, want_y=True, cplx=True, dof_per_element=False):
+    """Gaussian / Student-t with dense HERMITIAN (complex data) or real symmetric (real data) noise operators
+    (callables, std_inv = H, cov_inv = H H) on one array leaf"""
+    n = rng.choice([2, 2, 3])
+    shape = rng.choice([[n], [n, 1], [1, n]])
+    H = G.gen_herm(rng, n)
+    if not cplx:
+        H = [[[v[0], 0.0] for v in r] for r in H]
+    t = dict(kind=kind, par=dict(herm=H), tree=dict(wrap="arr", leaves=[dict(shape=shape, cplx=True) if cplx else dict(shape=shape)]))
+    nr = 2 * n if cplx else n
+    t["data"] = G.dys(rng, nr, -2, 2)
+    if kind == "studentt":
+        # scalar dof commutes with the dense operator; per-element dof does not: known finding C12-studentt-dense-noise-dof
+        t["par"]["dof"] = [1.5 + 0.75 * i for i in range(n)] if dof_per_element else G.dys(rng, 1, 1, 6, 4)
+    if want_y:
+        t["y"] = G.dys(rng, nr, -2, 2)
+    return t
+
+
+def gen_ccomposed(rng, kinds=None, ctype=None, holo=None, nterms=None, freeze=None, cplx_data=False, herm=False,
+                  defaults="random"):
+    """compositions over a latent tree with COMPLEX leaves and complex-valued forward models"""
+    nterms = nterms or (len(kinds) if kinds else rng.choice([1, 1, 1, 2, 2, 3]))
+    freeze = (rng.random() < 0.3) if freeze is None else freeze
+    lat = G.gen_clatent(rng, nterms, freeze)
+    terms = []
+    for i in range(nterms):
+        kind = kinds[i] if kinds else rng.choice(["gaussian", "gaussian", "studentt", "vcgauss", "vcgauss"] + G.KINDS)
+        if herm and kind in ("gaussian", "studentt"):
+            t = gen_herm_term(rng, kind, want_y=False)
+        else:
+            t = G.gen_term(rng, kind, want_y=False)
+            if kind in ("gaussian", "studentt", "vcgauss") and (cplx_data or rng.random() < 0.6):
+                # complex data: re-draw the data with the doubled real coordinates
+                G.cplx_tree(t["tree"])
+                t["data"] = G.dys(rng, G.tree_real(t["tree"]), -2, 2)
+        ps = I.primal_spec(t)
+        leaves = I.spec_leaves(ps)
+        n_first = len(ps["first"]["leaves"]) if ps["wrap"] == "pair" else len(leaves)
+        t["model"] = G.gen_cmodel(rng, t, lat, leaves, n_first, ctype=ctype, holo=holo)
+        if nterms > 1 and lat["wrap"] == "arr":
+            t["model"].pop("lazy", None)
+        if t["kind"] in EXACT_T:
+            r = rng.random()
+            if defaults != "random":
+                if defaults:
+                    t["defaults"] = defaults
+            elif r < 0.2:
+                t["defaults"] = True
+            elif r < 0.45:
+                t["defaults"] = "outer"
+        terms.append(t)
+    case = dict(op="lh", terms=terms, latent=lat, x=G.dys(rng, sum(G.lat_real_sizes(lat)), -1, 1))
+    if freeze:
+        case["freeze"] = [rng.randrange(len(lat["sizes"]))]
     if nterms > 1 and rng.random() < 0.3:
         case["sumctor"] = True
     return case
@@ -569,18 +811,26 @@ def stat_case(ctx, case):
             if t["model"].get("pre") is not None:
                 ctx.stat("model=chain(amend.amend)")
         if t.get("defaults"):
-            ctx.stat("Likelihood-defaults")
+            ctx.stat("Likelihood-defaults" + ("(outer)" if t["defaults"] == "outer" else ""))
+        if t.get("par", {}).get("herm"):
+            ctx.stat("noise=dense-hermitian")
+        if t.get("model") and t["model"].get("ctype"):
+            ctx.stat("cmodel=" + t["model"]["ctype"])
+            if any(l.get("cplx") for l in t["tree"]["leaves"]):
+                ctx.stat(f"cmodel->complex-data:{t['kind']}")
     if case.get("latent") is None:
         ctx.stat("mode=plain")
     else:
         ctx.stat("mode=composed")
         ctx.stat(f"nterms={len(case['terms'])}")
         ctx.stat("latent=" + case["latent"]["wrap"])
+        if any(case["latent"].get("cplx") or []):
+            ctx.stat("latent-complex")
         if case.get("freeze"):
             ctx.stat("partial-freeze")
 
 
-def compare_case(ctx, case, out_impl, out_model):
+def compare_case(ctx, case, out_impl, out_model, tol=None):
     """class-T comparison of the dense matrices; returns True when they agree"""
     ctx.case(case, nontrivial(case))
     if "error" in out_impl or "error" in out_model:
@@ -597,13 +847,13 @@ def compare_case(ctx, case, out_impl, out_model):
             continue
         if mm.shape != a.shape:
             mm = mm.reshape(a.shape) if mm.size == a.size else mm
-        if not close(a, mm):
+        if not close(a, mm, tol=tol):
             ctx.disagree(case, {key: dev(a, mm)}, {key: "model"},
                          f"dense {key}: implementation vs Lean model (max dev {dev(a, mm)})")
             ok = False
     if "Tval" in out_impl and out_model.get("T") is not None:
         tv = dec(out_model["T"])
-        if not close(out_impl["Tval"], tv):
+        if not close(out_impl["Tval"], tv, tol=tol):
             ctx.disagree(case, {"T": dev(out_impl["Tval"], tv)}, {"T": "model"},
                          f"transformation values: implementation vs Lean model ({dev(out_impl['Tval'], tv)})")
             ok = False
@@ -614,7 +864,17 @@ def _work(case):
     """everything that needs JAX for one case (runs in a forked worker): driver line, dense matrices, oracle"""
     import warnings
     warnings.filterwarnings("ignore")
+    import time
+    t0 = time.process_time()
+    with precision(case):
+        res = _work1(case)
+    res["secs"] = time.process_time() - t0
+    return res
+
+
+def _work1(case):
     res = dict(line=None, line_err=None)
+    NOISE[0] = 0.0
     if model_supported(case):
         try:
             res["line"] = driver_line(case, term_y_and_J(case))
@@ -626,7 +886,8 @@ def _work(case):
     except Exception as e:   # harness bug: surface it, do not hide it as a pass
         res["fails"] = []
         res["oracle_err"] = f"{type(e).__name__}: {str(e)[:300]}"
-    res["impl"] = {k: v for k, v in o.items() if not k.startswith("_")}
+    res["impl"] = {k: v for k, v in o.items() if not k.startswith("_") and k in ("M", "L", "R", "T", "Tval", "error", "msg")}
+    res["noise"] = NOISE[0]
     return res
 
 
@@ -640,6 +901,9 @@ def _silence():
     warnings.filterwarnings("ignore")
     logging.getLogger("NIFTy").setLevel(logging.ERROR)
     logging.getLogger("nifty").setLevel(logging.ERROR)
+    logging.getLogger("jax").setLevel(logging.ERROR)
+
+
 
 
 def run(ctx):
@@ -652,15 +916,51 @@ def run(ctx):
     for k in G.KINDS:
         for _ in range(ctx.n(2, 10)):
             cases.append(gen_plain(rng, k))
-    for _ in range(ctx.n(16, 100)):
+    for _ in range(ctx.n(6, 100)):
         cases.append(gen_plain(rng))
-    for _ in range(ctx.n(25, 180)):
+    for _ in range(ctx.n(16, 180)):
         cases.append(gen_composed(rng))
+    # round 2: complex-valued forward models in front of every likelihood that takes complex data, every stage type
+    for k in ("gaussian", "studentt", "vcgauss"):
+        for ci, ct in enumerate(G.CTYPES):
+            for _ in range(ctx.n(1, 4)):
+                # the defaults of `Likelihood` on the whole composition ("outer") / on the base (True) in a fixed rota
+                cases.append(gen_ccomposed(rng, kinds=[k], ctype=ct, cplx_data=True, freeze=False,
+                                           defaults=["outer", None, True, "outer", None][ci]))
+    for _ in range(ctx.n(6, 80)):
+        cases.append(gen_ccomposed(rng))
+    # dense Hermitian (non-real) noise operators: plain and behind a complex forward model (oracle only)
+    for _ in range(ctx.n(1, 6)):
+        cases.append(dict(op="lh", terms=[gen_herm_term(rng, "gaussian")]))
+        cases.append(dict(op="lh", terms=[_maybe_defaults(rng, gen_herm_term(rng, "studentt"))]))
+        cases.append(gen_ccomposed(rng, kinds=[rng.choice(["gaussian", "studentt"])], herm=True))
+        cases.append(dict(op="lh", terms=[gen_herm_term(rng, rng.choice(["gaussian", "studentt"]), cplx=False)]))
+    for _ in range(ctx.n(1, 3)):
+        cases.append(dict(op="lh", terms=[gen_herm_term(rng, "studentt", cplx=rng.random() < 0.5, dof_per_element=True)]))
+    # float32: the same generators, run in workers with jax's default configuration (x64 off)
+    cases32 = [gen_plain(rng, k) for k in G.KINDS for _ in range(ctx.n(1, 4))]
+    cases32 += [gen_composed(rng) for _ in range(ctx.n(3, 30))]
+    cases32 += [gen_ccomposed(rng) for _ in range(ctx.n(4, 30))]
+    for c in cases32:
+        c["f32"] = True
+    n64 = len(cases)
     # JAX work in forked workers (forked before this process imports jax)
-    nw = int(os.environ.get("C12_WORKERS", "4" if ctx.quick else "6"))
+    nw = int(os.environ.get("C12_WORKERS", "6" if ctx.quick else "8"))
+    cases = cases + cases32
+    I.prune_cache()
     with mp.get_context("fork").Pool(nw, initializer=_silence) as pool:
-        st = pool.apply(_selftest, (0,))
-        results = pool.map(_work, cases, chunksize=4)
+        st_async = pool.apply_async(_selftest, (0,))
+        results = pool.map(_work, cases, chunksize=1)
+        st = st_async.get()
+    if os.environ.get("C12_TIMING"):      # development aid only (never part of the evidence: not deterministic)
+        import sys
+        tot = sum(r.get("secs", 0.0) for r in results)
+        top = sorted(((r.get("secs", 0.0), "+".join(t["kind"] for t in c["terms"]) + ("/f32" if c.get("f32") else ""))
+                      for c, r in zip(cases, results)), reverse=True)[:12]
+        print(f"C12_TIMING total worker cpu {tot:.0f}s; slowest: " + ", ".join(f"{k}={v:.0f}s" for v, k in top), file=sys.stderr)
+    ctx.extra["cases_float64"], ctx.extra["cases_float32"] = n64, len(cases32)
+    ctx.extra["noise_float64"] = max([r.get("noise", 0.0) for r in results[:n64]] + [0.0])
+    ctx.extra["noise_float32"] = max([r.get("noise", 0.0) for r in results[n64:]] + [0.0])
     # self-test of the independent Fisher closed forms (a test, labelled as such)
     bad = [(n, v) for n, v in st if not v < 1e-7]
     ctx.extra["fisher_selftest"] = {n: float(v) for n, v in st}
@@ -682,11 +982,13 @@ def run(ctx):
         for cc, w, s in r["fails"]:
             ctx.counterexample(cc, w, s)
             ctx.stat("oracle-fail:" + s["check"])
+        if c.get("f32"):
+            ctx.stat("float32")
         if i in model_out:
-            compare_case(ctx, c, r["impl"], model_out[i])
+            compare_case(ctx, c, r["impl"], model_out[i], tol=TOL32 if c.get("f32") else None)
         else:
             ctx.case(c, nontrivial(c))
-            ctx.stat("oracle-only(d=3)")
+            ctx.stat("oracle-only")
 
 
 def search(ctx):
@@ -697,8 +999,8 @@ def search(ctx):
             c = gen_plain(rng, k)
             for cc, w, s in oracle_all(c):
                 ctx.counterexample(cc, w, s)
-        c = gen_composed(rng)
-        for cc, w, s in oracle_all(c):
-            ctx.counterexample(cc, w, s)
+        for c in (gen_composed(rng), gen_ccomposed(rng)):
+            for cc, w, s in oracle_all(c):
+                ctx.counterexample(cc, w, s)
         if ctx.counterexamples:
             return
